@@ -540,6 +540,21 @@ fn query(rng: &mut Rng, ctx: &mut Ctx, fam: &Fam, class: &str) {
                     p = edge_point(rng, ctx);
                 }
             }
+            // segments on the supporting line of two vertices, starting / ending beyond them (for a
+            // collinear triangulation: on its line, beyond its last vertex) - exact for half-integer
+            // parameters on the integer families
+            if nv >= 2 && rng.chance(if ctx.tri.nde() > 0 && ctx.tri.nv() <= 6 { 350 } else { 120 }) {
+                let a = rng.below(nv as u64) as usize;
+                let b = rng.below(nv as u64) as usize;
+                if a != b {
+                    let (pa, pb) = (ctx.tri.pos_bits(a), ctx.tri.pos_bits(b));
+                    let (pa, pb) = ((val(tag, pa.0), val(tag, pa.1)), (val(tag, pb.0), val(tag, pb.1)));
+                    let ts = [-2.0, -1.0, -0.5, 0.0, 0.5, 1.0, 1.5, 2.0, 3.0];
+                    let (t0, t1) = (*rng.pick(&ts), *rng.pick(&ts));
+                    p = (pa.0 + (pb.0 - pa.0) * t0, pa.1 + (pb.1 - pa.1) * t0);
+                    q = (pa.0 + (pb.0 - pa.0) * t1, pa.1 + (pb.1 - pa.1) * t1);
+                }
+            }
             ctx.op(vec![s("line"), ctok(tag, p.0), ctok(tag, p.1), ctok(tag, q.0), ctok(tag, q.1)]);
         }
         "lineh" => {
